@@ -155,6 +155,29 @@ static void hist_case (long idx, vf_rng *r)
         const char *what = mutate (r, role); force_scroll = 0;
         if (what && hk < 1200) hk += snprintf (hist + hk, sizeof hist - hk, "%s.%s; ", role == 0 ? "src" : role == 1 ? "mask" : "dst", what);
         if (what) { vf_label ("setters", "%s/%s", role == 0 ? "src" : role == 1 ? "mask" : "dst", what); vf_count ("setter_calls", 1); }
+        /* alpha-only destinations: the edge rasteriser called directly (it does not go through the compositing front end), on the long-lived
+         * destination and on a fresh replica */
+        if ((L.dst.fmt == PIXMAN_a8 || L.dst.fmt == PIXMAN_a4 || L.dst.fmt == PIXMAN_a1) && !L.dst.alpha_map && lx[2].other < 0 && lx[2].holders == 0 && vf_chance (r, 1, 3)) {
+            rq_request R = L; for (int role2 = 0; role2 < 3; role2++) { rq_image *im = role_img (&R, role2); im->img = im->amap = NULL; im->live_params = NULL; memset (&im->buf, 0, sizeof im->buf); memset (&im->abuf, 0, sizeof im->abuf); }
+            pixman_indexed_t *keep[3] = { L.src.palette, L.mask.palette, L.dst.palette }; int pixbuf = R.pixbuf; if (pixbuf) R.has_mask = 1;
+            vf_rng br = *r;
+            if (rq_build (&R, &br)) {
+                for (int role2 = 0; role2 < 3; role2++) { rq_image *im = role_img (&R, role2); if (role2 == 1 && (!R.has_mask || pixbuf)) continue; free (im->palette); im->palette = keep[role2]; finish_replica (im, role2); }
+                apply_accessors (&R); copy_pixels (&R.dst, &L.dst);
+                int bpp = PIXMAN_FORMAT_BPP (L.dst.fmt); pixman_trapezoid_t tz; tz.top = (pixman_fixed_t)vf_range (r, 0, 65536); tz.bottom = (pixman_fixed_t)(L.dst.h * 65536) - (pixman_fixed_t)vf_range (r, 0, 65536);
+                tz.left.p1.x = (pixman_fixed_t)vf_range (r, 0, 3 * 65536); tz.left.p1.y = tz.top; tz.left.p2.x = (pixman_fixed_t)vf_range (r, 0, 3 * 65536); tz.left.p2.y = tz.bottom + 1;
+                tz.right.p1.x = (pixman_fixed_t)(L.dst.w * 65536) - (pixman_fixed_t)vf_range (r, 0, 2 * 65536); tz.right.p1.y = tz.top; tz.right.p2.x = tz.right.p1.x - (pixman_fixed_t)vf_range (r, 0, 65536); tz.right.p2.y = tz.bottom + 1;
+                pixman_fixed_t t = pixman_sample_ceil_y (tz.top, bpp), b = pixman_sample_floor_y (tz.bottom, bpp);
+                if (b >= t && tz.bottom > tz.top) { pixman_edge_t le, re;
+                    vf_case_desc ("after history [%s] pixman_rasterize_edges on the %s destination", hist, rp_name (L.dst.fmt)); vf_inflight ("rasterize_edges on the long-lived destination");
+                    pixman_line_fixed_edge_init (&le, bpp, t, &tz.left, 0, 0); pixman_line_fixed_edge_init (&re, bpp, t, &tz.right, 0, 0); pixman_rasterize_edges (L.dst.img, &le, &re, t, b);
+                    pixman_line_fixed_edge_init (&le, bpp, t, &tz.left, 0, 0); pixman_line_fixed_edge_init (&re, bpp, t, &tz.right, 0, 0); pixman_rasterize_edges (R.dst.img, &le, &re, t, b);
+                    vf_count ("evaluations", 1); vf_count ("rasterize_edges_compared", 1);
+                    if (memcmp (L.dst.buf.base, R.dst.buf.base, L.dst.buf.bytes)) { vf_violation ("C14:history-dependent-rendering:rasterize_edges", "pixman_rasterize_edges leaves different bytes in the long-lived %s destination than in a fresh replica with the same properties", rp_name (L.dst.fmt)); copy_pixels (&L.dst, &R.dst); } }
+                for (int role2 = 0; role2 < 3; role2++) { rq_image *im = role_img (&R, role2); im->palette = NULL; }
+                rq_free (&R);
+            }
+        }
         if (!scroll_now && !vf_chance (r, 1, 3) && step != 29) continue;
         /* ---- composite on the live images and on fresh replicas ---- */
         if (vf_chance (r, 1, 2)) L.op = ro_ops[vf_next (r) % ro_nops];
